@@ -661,7 +661,7 @@ func (s *storage) ReceiveBlob(ctx context.Context, br blob.Ref, source io.Reader
 }
 
 // append writes the provided blob to the current data file.
-func (s *storage) append(br blob.SizedRef, r io.Reader) error {
+func (s *storage) append(br blob.SizedRef, r io.Reader) (err error) {
 	s.mu.Lock()
 	defer s.mu.Unlock()
 	if s.closed {
@@ -670,6 +670,21 @@ func (s *storage) append(br blob.SizedRef, r io.Reader) error {
 
 	// to be able to undo the append
 	origOffset := s.size
+	indexed := false
+	defer func() {
+		if err == nil || indexed {
+			return
+		}
+		// Undo a partial append (failed write, sync or index update), so
+		// that the pack file stays parseable for later appends and Reindex.
+		if _, seekErr := s.writer.Seek(origOffset, io.SeekStart); seekErr != nil {
+			log.Printf("ERROR seeking back to the original offset: %v", seekErr)
+		} else if truncErr := s.writer.Truncate(origOffset); truncErr != nil {
+			log.Printf("ERROR truncating file after a failed append: %v", truncErr)
+		} else {
+			s.size = origOffset
+		}
+	}()
 
 	fn := s.writer.Name()
 	n, err := fmt.Fprintf(s.writer, "[%v %v]", br.Ref.String(), br.Size)
@@ -711,15 +726,9 @@ func (s *storage) append(br blob.SizedRef, r io.Reader) error {
 	// truncates the pack file the blob was written to.
 	err = s.index.Set(br.Ref.String(), blobMeta{packIdx, offset, br.Size}.String())
 	if err != nil {
-		if _, seekErr := s.writer.Seek(origOffset, io.SeekStart); seekErr != nil {
-			log.Printf("ERROR seeking back to the original offset: %v", seekErr)
-		} else if truncErr := s.writer.Truncate(origOffset); truncErr != nil {
-			log.Printf("ERROR truncating file after index error: %v", truncErr)
-		} else {
-			s.size = origOffset
-		}
 		return err
 	}
+	indexed = true
 	if s.size > s.maxFileSize {
 		if err := s.nextPack(); err != nil {
 			return err
